@@ -47,7 +47,7 @@ Proof.
 Qed.
 
 Definition byte_prints_ok (n : Z) : bool :=
-  forallb is_digit (str_of_int n) && (int10 (str_of_int n) =? n)
+  forallb is_digit (str_of_int n) && (csi_number (str_of_int n) =? n)
   && nonempty_b (str_of_int n)
   && str_eqb (hex02 n) [dchar (n / 16); dchar (n mod 16)].
 
@@ -55,7 +55,7 @@ Lemma bytes_print_ok_table : forallb byte_prints_ok (zrange 256) = true.
 Proof. vm_compute. reflexivity. Qed.
 
 Lemma byte_prints : forall n, 0 <= n <= 255 ->
-  forallb is_digit (str_of_int n) = true /\ int10 (str_of_int n) = n /\
+  forallb is_digit (str_of_int n) = true /\ csi_number (str_of_int n) = n /\
   str_of_int n <> [] /\ hex02 n = [dchar (n / 16); dchar (n mod 16)].
 Proof.
   intros n Hn.
@@ -68,8 +68,6 @@ Proof.
 Qed.
 
 (* ---- hexadecimal digits ------------------------------------------------ *)
-
-Definition is_hex_b (c : Z) : bool := match hexval c with Some _ => true | None => false end.
 
 Lemma hexval_props : forall c v, hexval c = Some v ->
   0 <= v < 16 /\ dchar v = lower_c c /\
